@@ -684,63 +684,88 @@ def op_tag(op, out):
     return t
 
 
+CHUNK = 200
+
+
+def _chunks(it, n):
+    buf = []
+    for x in it:
+        buf.append(x)
+        if len(buf) == n:
+            yield buf
+            buf = []
+    if buf:
+        yield buf
+
+
 def correspondence(ctx):
     rng = ctx.rng
-    cases = list(core.load_corpus(PROP))
     moved = changed_anchors()
     scale = 2 if (moved and ctx.quick()) else 1
-    n_exact = scale * ctx.budget(750, 5000)
-    n_float = scale * ctx.budget(260, 1800)
-    n_big = scale * ctx.budget(100, 700)
-    for _ in range(n_exact):
-        cases.append(gen_case(rng, "exact"))
-    for _ in range(n_float):
-        cases.append(gen_case(rng, "float"))
-    for _ in range(n_big):
-        cases.append(gen_case(rng, "big"))
-    impl = []
-    resolved = []
-    for c in cases:
-        o, rc = run_impl(ctx, c)
-        impl.append(o)
-        resolved.append(rc)
-    model = core.run_driver(PROP, resolved)
+    n_exact = scale * ctx.budget(1100, 12000)
+    n_float = scale * ctx.budget(380, 4000)
+    n_big = scale * ctx.budget(150, 1500)
+
+    def all_cases():
+        for c in core.load_corpus(PROP):
+            yield c
+        for _ in range(n_exact):
+            yield gen_case(rng, "exact")
+        for _ in range(n_float):
+            yield gen_case(rng, "float")
+        for _ in range(n_big):
+            yield gen_case(rng, "big")
+
     disagreements = []
     dist = {}
     classes = {}
     dtypes = {}
     seen = set()
+    samples = []
     nops = 0
-    for c, rc, m, i in zip(cases, resolved, model, impl):
-        if "ok" not in m or len(m["ok"]) != len(i):
-            disagreements.append(Disagreement(c, m, i))
-            continue
-        dtypes[c["dtype"]] = dtypes.get(c["dtype"], 0) + 1
-        bad_at = None
-        for k, (op, mo, io) in enumerate(zip(rc["ops"], m["ok"], i)):
-            nops += 1
-            ok, cls = same_out(op, mo, io)
-            tg = op_tag(op, io)
-            dist[tg] = dist.get(tg, 0) + 1
-            if op[0] in ("read", "view"):
-                classes[cls] = classes.get(cls, 0) + 1
-                if "ok" in io:
-                    kind = ("calibrated" if (mo.get("ok") or {}).get("coeffs") or
-                            frac((mo.get("ok") or {}).get("origin") or "0/1") != 0 else "uncalibrated")
-                    classes[kind] = classes.get(kind, 0) + 1
-                if ("ok" in io and "ok" in mo and io["ok"]["dtype"] == "float64" and c["dtype"] != "float64"
-                        and io["ok"]["vals"]):
-                    seen.add(core.canon([c["dtype"], c["shape"], op[:3], mo["ok"].get("coeffs"),
-                                         mo["ok"].get("origin"), io["ok"]["vals"]]))
-            if not ok and bad_at is None:
-                bad_at = k
-        if bad_at is not None:
-            small = shrink_case(c, bad_at)
-            disagreements.append(Disagreement(small, {"op": len(small["ops"]) - 1, "out": strip(m["ok"][bad_at])},
-                                              {"op": len(small["ops"]) - 1, "out": i[bad_at]}))
+    ncases = 0
+    # cases are generated, executed and compared chunk by chunk: nixio's File.close() runs a full gc.collect(),
+    # so keeping every output alive would make the run quadratic
+    for cases in _chunks(all_cases(), CHUNK):
+        impl = []
+        resolved = []
+        for c in cases:
+            o, rc = run_impl(ctx, c)
+            impl.append(o)
+            resolved.append(rc)
+        model = core.run_driver(PROP, resolved)
+        if not samples:
+            samples = [{"case": resolved[k], "model": [strip(x) for x in model[k].get("ok", [])][:6]}
+                       for k in range(min(3, len(cases)))]
+        for c, rc, m, i in zip(cases, resolved, model, impl):
+            ncases += 1
+            if "ok" not in m or len(m["ok"]) != len(i):
+                disagreements.append(Disagreement(c, m, i))
+                continue
+            dtypes[c["dtype"]] = dtypes.get(c["dtype"], 0) + 1
+            bad_at = None
+            for k, (op, mo, io) in enumerate(zip(rc["ops"], m["ok"], i)):
+                nops += 1
+                ok, cls = same_out(op, mo, io)
+                tg = op_tag(op, io)
+                dist[tg] = dist.get(tg, 0) + 1
+                if op[0] in ("read", "view"):
+                    classes[cls] = classes.get(cls, 0) + 1
+                    if "ok" in io:
+                        kind = ("calibrated" if (mo.get("ok") or {}).get("coeffs") or
+                                frac((mo.get("ok") or {}).get("origin") or "0/1") != 0 else "uncalibrated")
+                        classes[kind] = classes.get(kind, 0) + 1
+                    if ("ok" in io and "ok" in mo and io["ok"]["dtype"] == "float64" and c["dtype"] != "float64"
+                            and io["ok"]["vals"]):
+                        seen.add(core.sha(core.canon([c["dtype"], c["shape"], op[:3], mo["ok"].get("coeffs"),
+                                                      mo["ok"].get("origin"), io["ok"]["vals"]])))
+                if not ok and bad_at is None:
+                    bad_at = k
+            if bad_at is not None and len(disagreements) < 200:
+                small = shrink_case(c, bad_at)
+                disagreements.append(Disagreement(small, {"op": len(small["ops"]) - 1, "out": strip(m["ok"][bad_at])},
+                                                  {"op": len(small["ops"]) - 1, "out": i[bad_at]}))
     disagreements.sort(key=lambda d: len(core.canon(d.case)))
-    pick = sorted(rng.sample(range(len(cases)), min(4, len(cases))))
-    samples = [{"case": resolved[k], "model": [strip(x) for x in model[k].get("ok", [])][:6]} for k in pick]
     return {"evaluations": nops, "distinct_nontrivial": len(seen),
             "rule": "one evaluation = one operation of a generated history (set/clear of the two attributes, reads "
                     "through DataArray[...], np.array, DataView via get_slice / constructor / Tag / MultiTag / "
@@ -748,7 +773,7 @@ def correspondence(ctx):
                     "the Lean model; non-trivial = a read of a non-float64 array that came back calibrated "
                     "(float64, non-empty), distinct by (dtype, shape, op, calibration, values)",
             "samples": samples,
-            "distribution": {"cases": len(cases), "ops": dist, "read_value_classes": classes, "dtypes": dtypes,
+            "distribution": {"cases": ncases, "ops": dist, "read_value_classes": classes, "dtypes": dtypes,
                              "profiles": {"exact": n_exact, "float": n_float, "big": n_big},
                              "anchors_changed": moved},
             "disagreements": disagreements, "exhaustive": False}
@@ -1073,19 +1098,25 @@ def gen_oracle_case(rng, profile):
 
 def oracle(ctx, broken, hints):
     rng = ctx.rng
-    cases = []
-    for h in hints[:100]:
-        if isinstance(h, dict) and "ops" in h:
-            cases.append(h)
-    cases += FIXED_CASES
-    cases += list(core.load_corpus(PROP))
-    n = 4000 if (broken and not ctx.quick()) else 1200 if broken else ctx.budget(400, 2500)
-    for k in range(n):
-        cases.append(gen_oracle_case(rng, "exact" if k % 4 else "float" if k % 8 else "big"))
+    n = 4000 if (broken and not ctx.quick()) else 1200 if broken else ctx.budget(600, 5000)
+
+    def all_cases():
+        for h in hints[:100]:
+            if isinstance(h, dict) and "ops" in h:
+                yield h
+        for c in FIXED_CASES:
+            yield c
+        for c in core.load_corpus(PROP):
+            yield c
+        for k in range(n):
+            yield gen_oracle_case(rng, "exact" if k % 4 else "float" if k % 8 else "big")
+
     failures = []
     evals = 0
+    ncases = 0
     seen = set()
-    for c in cases:
+    for c in all_cases():
+        ncases += 1
         fs, ev = oracle_case(ctx, c)
         evals += ev
         for f in fs:
@@ -1096,7 +1127,7 @@ def oracle(ctx, broken, hints):
         if len(failures) >= 25:
             break
     failures.sort(key=lambda f: len(core.canon(f.input)))
-    return {"evaluations": evals, "failures": failures, "cases": len(cases)}
+    return {"evaluations": evals, "failures": failures, "cases": ncases}
 
 
 def matches_known(entry, failure):
